@@ -23,6 +23,14 @@ SHORT = {
  "r2_C08": ("RawIntoIter::next: returns the old-table iterator's result unconditionally", "into_iter after retain emptied the old table"),
  "r2_C12": ("Entry::insert (occupied arm): carries after the write but returns the pre-carry handle", "entry(k).insert(v) on an old-table key among the next 8 to move, then use of the handle"),
  "r2_C17": ("try_grow: only need + add checked, `+ inserts` unchecked", "reserve/try_reserve within ceil(len/8) of usize::MAX - len"),
+ "r3_C02": ("HashMap::insert overwrite of an old-table element calls carry_all instead of carry", "overwrite of a not-yet-moved key while > 8 leftovers remain"),
+ "r3_C03": ("carry: trailing 'old table empty -> release' check deleted", "a carry that starts with exactly R leftovers"),
+ "r3_C05": ("erase (ZST branch): RefreshItems guard scoped so the iterator is rebuilt before the erase", "zero-sized element type, retain drops an old-table element"),
+ "r3_C09": ("erase (ZST branch): `let _ = RefreshItems(lo)` drops the guard at once", "as r3_C05"),
+ "r3_C10": ("try_reserve: leftovers + additional unchecked again", "mid-resize try_reserve(n), n > usize::MAX - leftovers"),
+ "r3_C11": ("clone_from: hasher closure built from the destination's old builder", "hashers with different state and a source mid-resize (or hashbrown's re-insert path)"),
+ "r3_C13": ("clear: early return when the MAIN table is empty", "mid-resize, main emptied (or just reserved), old table non-empty"),
+ "r3_C16": ("same change as r3_C13 (independent agent)", "deserialize_in_place into such a destination"),
  "d1": ("revert of fix dbcf4bd", "retain away the old table; shrink_to_fit; insert"),
  "d35": ("revert of fix dc3af20", "replace_entry_with on an old-table element (panic / beyond cursor group)"),
  "d2": ("revert of fix ce142c0", "HashSet<()>: insert; reserve(10); remove"),
